@@ -618,6 +618,14 @@ class Normalizer:
                         v2 = _terms.replace(v2, ("tproj", ("elem", recv), 0), hole)
                     if not any(y[0] == "elem" and y[1] in (src, recv, seq) for y in _sub(v2)):
                         return self.norm(("ite", M(pos, "some"), ("ctor", SOME, (_terms.replace(v2, hole, at),)), body[3]))
+            if name == "find_map" and body[0] == "ite" and all(b[0] == "ctor" and last(b[1]) in ("Some", "None") for b in body[2:4]) \
+                    and {last(body[2][1]), last(body[3][1])} == {"Some", "None"}:
+                # xs.find_map(|x| if C(x) { Some(V(x)) } else { None })  ==  xs.map(V).find(C)   (the closure is pure)
+                some_first = last(body[2][1]) == "Some"
+                val = (body[2] if some_first else body[3])[2]
+                if len(val) == 1:
+                    cond = body[1] if some_first else neg(body[1])
+                    return self.norm(("hof", "find", ("hof", "map", recv, val[0]) + tuple(t[4:]), cond) + tuple(t[4:]))
             if name in ("map", "and_then") and self.is_variant_tree(recv):
                 # Ok(x).map(f) == Ok(f(x)), Err(e).map(f) == Err(e); distributed over conditionals
                 return self.norm(self.map_variants(recv, recv, body, name))
